@@ -45,6 +45,25 @@ func translatePath(path string) (string, fileType) {
 	}
 }
 
+// refuseBlockingOpen tells if file must not be opened at all: open of a named pipe blocks
+// until somebody opens the other end, such things can't be served.
+func refuseBlockingOpen(fsys afero.Fs, path string) error {
+	if stat, err := fsys.Stat(path); err == nil && stat.Mode()&(fs.ModeNamedPipe|fs.ModeSocket) != 0 {
+		return &fs.PathError{Op: "open", Path: path, Err: syscall.EINVAL}
+	}
+
+	return nil
+}
+
+// openForRead opens file which is a part of something served (key, PARAM.SFO, image member).
+func openForRead(fsys afero.Fs, path string) (afero.File, error) {
+	if err := refuseBlockingOpen(fsys, path); err != nil {
+		return nil, err
+	}
+
+	return fsys.Open(path)
+}
+
 func (fsys *FS) Open(path string) (afero.File, error) {
 	return fsys.OpenFile(path, os.O_RDONLY, 0)
 }
@@ -61,9 +80,8 @@ func (fsys *FS) OpenFile(path string, flags int, perm fs.FileMode) (afero.File, 
 		return NewVirtualISO(fsys.Fs, path, typ == virtualPS3ISOFile)
 	}
 
-	// open of a named pipe blocks until somebody opens the other end, such things can't be served
-	if stat, err := fsys.Fs.Stat(path); err == nil && stat.Mode()&(fs.ModeNamedPipe|fs.ModeSocket) != 0 {
-		return nil, &fs.PathError{Op: "open", Path: path, Err: syscall.EINVAL}
+	if err := refuseBlockingOpen(fsys.Fs, path); err != nil {
+		return nil, err
 	}
 
 	f, err := fsys.Fs.OpenFile(path, flags, perm)
